@@ -232,6 +232,28 @@ def run(ctx):
         ctx.evaluated()
         if (math.isfinite(v) if want_finite else v == -math.inf) is False:
             ctx.violation("posterior/support/" + pr[0], "posterior at theta=%g under prior %s is %r" % (theta, pr, v), {"prior": pr, "theta": theta, "posterior": v})
+    # the 'positive' flag speaks about the parameter's *value*: whether the sampler works on the value or on its logarithm, and
+    # whichever simulator computes the likelihood, a positive in-support value under the flag has the posterior it has without it
+    from bioscrape.random import py_seed_random
+    for sim_type in ("deterministic", "stochastic"):
+        for log_space in (False, True):
+            for value in (0.5, 0.9, 2.0):
+                got = []
+                for pr in (["gamma", 3.0, 2.0, "positive"], ["gamma", 3.0, 2.0]):
+                    case = {"scenario": "positive flag and sampler coordinates", "sim_type": sim_type, "log_space_parameters": log_space, "prior": pr, "value": value}
+                    ctx.begin_case(case)
+                    inf = InferenceSetup(Model=M, exp_data=data, measurements=["A"], time_column="time", params_to_estimate=["p0"],
+                                         prior={"p0": pr}, initial_conditions={"A": 1.0}, sim_type=sim_type)
+                    inf.setup_cost_function(log_space_parameters=log_space)
+                    py_seed_random(4242)
+                    got.append(float(inf.cost_function([math.log(value) if log_space else value])))
+                    ctx.evaluated()
+                if not math.isfinite(got[0]) or got[0] != got[1]:
+                    ctx.violation("posterior/positive-flag/" + sim_type + ("/log-space" if log_space else ""),
+                                  "value %g of a gamma(3, 2) prior (%s inference, log_space_parameters=%s): posterior %r under the 'positive' flag, %r without it"
+                                  % (value, sim_type, log_space, got[0], got[1]), dict(case, with_flag=got[0], without_flag=got[1]))
+                    return
+                ctx.count("positive_flag_sampler_coordinates")
     # vectors: one component outside its support (rejected) together with components inside their support where the
     # density is zero or underflows (log-density -inf): the posterior is minus infinity - not NaN, not finite
     outside = [(["uniform", 0.0, 10.0], 11.0), (["log-uniform", 1.0, 10.0], 11.0), (["exponential", 1.0], -1.0), (["gamma", 3.0, 2.0], -1.0),
